@@ -40,6 +40,7 @@ def branchOf : Ty → String
   | .tuple _ | .tupleVar _ | .set _ => "TupleSet"
   | .list _ => "Sequence"
   | .dict _ _ => "Mapping"
+  | .rnum _ _ | .reg _ => "registered"
 
 /-! ### small helpers -/
 
@@ -130,6 +131,53 @@ def adaptEnum (ser : Bool) (c : Nat) (ms : List String) (v : Val) : Except Err V
     | .tuple xs => if hashableAll xs then .error .value else .error .type
     | _ => .error .value
 
+/-! ### registered types (restricted number / string types are registered types too) -/
+
+def RBase.has : RBase → Val → Bool
+  | .int, .int _ => true
+  | .float, .flt _ => true
+  | .str, .str _ => true
+  | _, _ => false
+
+/-- `cls._type(v)` inside `validation_fn` / `__new__` of a restricted type, after its bool / non-integer checks -/
+def rnumConv (O : Oracle) : RBase → Val → Option Val
+  | .int, .int i => some (.int i)
+  | .int, .flt r => (fltAsInt r).map Val.int                 -- "not an integer" otherwise
+  | .int, .str s => (match O.numStr .int s with | some (.int i) => some (.int i) | _ => .none)
+  | .float, .int i => (toFlt O i).map Val.flt
+  | .float, .flt r => some (.flt r)
+  | .float, .str s => (match O.numStr .float s with | some (.flt r) => some (.flt r) | _ => .none)
+  | .str, .str s => some (.str s)                            -- `regex.match` needs a str
+  | _, _ => .none                                            -- bool, None, containers: ValueError / wrapped TypeError
+
+/-- the "Registered types" branch for a restricted type: `serializer` = the base type, `deserializer` = the class
+    (its exceptions are wrapped into ValueError); `is_value_of_type` is invisible here: an instance of the
+    class is the plain number / string -/
+def adaptRnum (O : Oracle) (ser : Bool) (b : RBase) (k : Nat) (v : Val) : Except Err Val :=
+  if ser then
+    if b.has v then .ok v
+    else match O.baseOf b v with
+      | some w => if b.has w then .ok w else .error .type
+      | .none => .error .type
+  else
+    match rnumConv O b v with
+    | some w => if O.rnumOk k w then .ok w else .error .value
+    | .none => .error .value
+
+/-- the same branch for the other registered types: `is_value_of_type` early-out, else the deserializer -/
+def adaptReg (O : Oracle) (ser : Bool) (k : Nat) (v : Val) : Except Err Val :=
+  if ser then
+    match O.regSer k v with
+    | some w => .ok w
+    | .none => .error .type
+  else
+    match v with
+    | .obj k' r => if k = k' then .ok (.obj k' r) else
+        (match O.regDeser k v with | some (.obj k'' r') => if k = k'' then .ok (.obj k'' r') else .error .value | _ => .error .value)
+    | v => match O.regDeser k v with
+      | some (.obj k'' r') => if k = k'' then .ok (.obj k'' r') else .error .value
+      | _ => .error .value
+
 /-! ### Any -/
 
 /-- the `Any` branch on a string: `parse_value_or_config(val, enable_path=False, simple_types=True)` under
@@ -203,6 +251,8 @@ def adapt (O : Oracle) (ser : Bool) (orig : Option String) : Ty → Val → Exce
   | .bool, v => adaptLeaf O .bool v
   | .none, v => adaptLeaf O .none v
   | .enum c ms, v => adaptEnum ser c ms v
+  | .rnum b k, v => adaptRnum O ser b k v
+  | .reg k, v => adaptReg O ser k v
   | .union ts, v =>
     let s1 := unionPhase O ser orig (cls1 v) ts v []
     let s2 := if s1.2 then s1 else unionPhase O ser orig (cls2 v) ts v s1.1
